@@ -30,7 +30,7 @@ func vc08(maxSpecies, maxArrive int) {
 	gid := 0
 	for i := 0; i < ns; i++ {
 		sp := NewSpecies(i + 1)
-		members := 1 + vChoice("members", 2)
+		members := vChoice("members (0 = a species that lost its organisms and is not yet purged)", 3)
 		for k := 0; k < members; k++ {
 			o := &Organism{Genotype: tinyGenome(gid), Species: sp}
 			gid++
@@ -51,7 +51,9 @@ func vc08(maxSpecies, maxArrive int) {
 	speciesBefore := append([]*Species{}, pop.Species...)
 	repsBefore := make([]*Organism, len(speciesBefore))
 	for i, sp := range speciesBefore {
-		repsBefore[i] = sp.Organisms[0]
+		if len(sp.Organisms) > 0 {
+			repsBefore[i] = sp.Organisms[0]
+		}
 	}
 	err := pop.speciate(&hCtx{opts: opts}, arriving)
 	vAssert(err == nil, "C08: speciation succeeds")
@@ -105,7 +107,25 @@ func vc08(maxSpecies, maxArrive int) {
 		}
 	}
 	for i, sp := range speciesBefore {
-		vAssert(sp.Organisms[0] == repsBefore[i], "C08: the representative (first organism) of an existing species does not change")
+		if repsBefore[i] != nil {
+			vAssert(sp.Organisms[0] == repsBefore[i], "C08: the representative (first organism) of an existing species does not change")
+		}
+	}
+	// every representative that existed when an organism arrived was compared with it (none is skipped)
+	for _, o := range arriving {
+		for i, sp := range speciesBefore {
+			if repsBefore[i] == nil {
+				continue
+			}
+			compared := false
+			for _, c := range c08Log {
+				if c.org == o.Genotype && c.rep == repsBefore[i].Genotype {
+					compared = true
+				}
+			}
+			_ = sp
+			vAssert(compared, "C08: an arriving organism is compared with the representative of every non-empty species")
+		}
 	}
 	vAssert(pop.LastSpecies == nextId, "C08: the species id counter advances by the number of species founded")
 	ids := true
